@@ -32,6 +32,8 @@ ASSUMPTIONS = [
     "the kernel socket is a canned-reply fake: whole reply frames, delivered in <= 256-byte reads (segmentation is C12's subject)",
     "UDP discovery: datagrams are handed to the response loop in order, then the socket times out",
     "dict values of the documented Python types (str / int / bytes); product names are Latin-1 text",
+    "the documented vendor / product-type / keyswitch registries are the hand-maintained snapshot coq/Spec/RegistrySpec.v "
+    "(taken from pycomm3/cip/status_info.py at the pinned commit); /repo may add entries, not drop or change them",
 ]
 
 CTX = b"_pycomm_"        # the context the driver sends and a device echoes
@@ -973,6 +975,64 @@ def check_primitives(R, mp, rng, tables, thorough):
             R.disagree("KEYSWITCH lookup", s, mdl, impl)
 
 
+def check_registry(R, mp, rng):
+    """the documented registries (Spec/RegistrySpec.v, hand-maintained snapshot): for EVERY documented vendor id
+    and product type, the real decode paths return the documented text (a sample also through the drivers).
+    Expected text = the snapshot, not the table of /repo."""
+    from pycomm3.custom_types import ListIdentityObject, ModuleIdentityObject
+    tv, tp = mp.ask("regv"), mp.ask("regp")
+    vend = list(zip(tv[0::2], tv[1::2]))
+    ptyp = list(zip(tp[0::2], tp[1::2]))
+    if len(vend) < 1000 or len(ptyp) < 30:
+        raise RuntimeError("Spec/RegistrySpec.v: registry snapshot missing or truncated")
+    jobs = []
+    for k in range(max(len(vend), len(ptyp))):
+        (vid, vname), (pid, pname) = vend[k % len(vend)], ptyp[k % len(ptyp)]
+        i = Ident(vendor=vid, ptype=pid, pcode=rng.randrange(65536), major=rng.randrange(256), minor=rng.randrange(256),
+                  status=rng.randrange(65536), serial=rng.randrange(1 << 32), name=b"registry-%d" % vid, encap=1, family=2,
+                  port=44818, ip=rng.randrange(1 << 32), state=3)
+        jobs.append((i, vname, pname))
+    outs = mp.batch([" ".join(["speclist", fw.t_bytes(CTX)] + i.toks()) for i, _, _ in jobs]
+                    + [" ".join(["specobj"] + i.toks()) for i, _, _ in jobs])
+    bad = []
+    for k, (i, vname, pname) in enumerate(jobs):
+        frame, obj = fw.parse_line(outs[k])[0], fw.parse_line(outs[len(jobs) + k])[0]
+        for what, f in (("ListIdentityObject.decode", lambda: ListIdentityObject.decode(frame[26:])),
+                        ("ModuleIdentityObject.decode", lambda: ModuleIdentityObject.decode(obj))):
+            try:
+                d = f()
+                got = [d.get("vendor"), d.get("product_type")]
+            except Exception as e:
+                got = ["raises", type(e).__name__]
+            R.case(("registry", what, i.vendor, i.ptype))
+            R.count("registry", what)
+            if not same(got[0], vname):
+                R.fail(f"{what}: documented vendor id does not decode to its documented name", {"vendor_id": i.vendor, "ident": i.as_dict()},
+                       got[0], vname, f"registry:vendor:{i.vendor}")
+                bad.append(k)
+            if not same(got[1], pname):
+                R.fail(f"{what}: documented product type does not decode to its documented name", {"product_type": i.ptype, "ident": i.as_dict()},
+                       got[1], pname, f"registry:product_type:{i.ptype}")
+                bad.append(k)
+    # through the drivers: a sample + the first entries that failed above
+    sample = sorted(set(list(range(0, len(jobs), max(1, len(jobs) // 24))) + [len(jobs) - 1] + bad[:4]))
+    outs = mp.batch([" ".join(["speclist", fw.t_bytes(CTX)] + jobs[k][0].toks()) for k in sample]
+                    + [" ".join(["specrr", "4660", fw.t_bytes(CTX), "x"] + jobs[k][0].toks()) for k in sample])
+    for n, k in enumerate(sample):
+        i, vname, pname = jobs[k]
+        frame, rr = fw.parse_line(outs[n])[0], fw.parse_line(outs[len(sample) + n])[0]
+        for what, r, at in (("CIPDriver.list_identity", drv_list_identity(Device(0x1234, frame, rr)), 3),
+                            ("CIPDriver.get_module_info", drv_module_info(Device(0x1234, frame, rr), 0), 1),
+                            ("LogixDriver.get_plc_info", drv_plc_info(Device(0x1234, frame, rr)), 1)):
+            got = r[at:at + 2] if r and r[0] in ("ok", "some") else r
+            R.case(("registry", what, i.vendor, i.ptype))
+            R.count("registry", what)
+            if not same(list(got), [vname, pname]):
+                R.fail(f"{what}: documented vendor id / product type does not decode to its documented name",
+                       {"vendor_id": i.vendor, "product_type": i.ptype, "ident": i.as_dict()}, got, [vname, pname],
+                       f"registry:driver:vendor={i.vendor}:product_type={i.ptype}")
+
+
 def run_on(R, mp, ids, tables, rng, n_mut, n_trunc, n_drv, n_drv_bad, n_bad_dicts, thorough, primitives=True):
     prepared = check_pure(R, mp, ids, tables, rng, n_mut)
     check_truncations(R, mp, prepared, n_trunc)
@@ -1010,6 +1070,7 @@ def run(R, escalate=False):
               "service bytes through the drivers, dicts outside the encode domain. non-trivial = distinct (entry point, input bytes or dict)")
     mp = fw.ModelProc("C16")
     try:
+        check_registry(R, mp, rng)
         corp = corpus_identities()
         if corp:
             R.count("source", "corpus", len(corp))
